@@ -268,6 +268,12 @@ func Generate(r *sim.Rng, prop, tier string, idx int) *sim.Case {
 func genConc(r *sim.Rng, c *sim.Case, keys []string) {
 	c.Knobs["capacity"] = int64(1 + r.Intn(3))
 	c.Knobs["flavor"] = int64(r.Intn(2))
+	if r.Chance(1, 6) {
+		// ExpirableCache under concurrency: its GetOrCreate is three cache calls, so
+		// the history is not checked against the sequential LRU; the single-flight,
+		// capacity and delete-ledger oracles still apply
+		c.Knobs["flavor"] = 2
+	}
 	nk := 2 + r.Intn(3)
 	keys = keys[:nk]
 	nt := 2 + r.Intn(3)
@@ -294,6 +300,9 @@ func genConc(r *sim.Rng, c *sim.Case, keys []string) {
 			}
 			if r.Chance(1, 5) {
 				c.Faults = append(c.Faults, sim.Fault{Seam: "loader", Kind: "sleep", Node: k, Ord: int64(att), D: int64(sim.Pick(r, time.Microsecond, time.Millisecond))})
+			}
+			if c.Knobs["flavor"] == 2 && r.Chance(1, 2) {
+				c.Faults = append(c.Faults, sim.Fault{Seam: "loader", Kind: "ttl", Node: k, Ord: int64(att), D: int64(sim.Pick(r, time.Microsecond, 500*time.Microsecond, time.Second))})
 			}
 		}
 	}
